@@ -3,7 +3,7 @@
    state machine), diffed against the real PathBuf on every explored history (pair.hist). *)
 From Coq Require Import List NArith Bool.
 Import ListNotations.
-From TP Require Import Core Path Unix StdUnix Spec Val Obs C07Proofs.
+From TP Require Import Core Path Unix StdUnix Spec Val Obs C07Proofs StdParentBytes C07Bytes.
 
 (* For EVERY history of push / pop / set_file_name / clear / extend / collect / join / with_file_name and
    every pair of component-equal start buffers: after every step the two buffers are component-equal
@@ -38,9 +38,27 @@ Print Assumptions C07_push_bytes_R.
 Print Assumptions C07_push_keeps_R.
 Print Assumptions C07_extend_keeps_R.
 Print Assumptions C07_R_component_equal.
-(* C07_bytes_partial: that pop and set_file_name keep the byte-level relation Rb (i.e. byte-identical
-   parents) is not proved; byte-identity after every non-empty push of every explored history is decided
-   by hist_rel against the real std::path::PathBuf. *)
+(* the byte-level statement for every history (this was C07_bytes_partial until StdParentBytes.v /
+   C07Bytes.v): pop and set_file_name keep Rb too, because the two parents are the same bytes and a
+   trailing '/' does not change the parent; hence after every step of every history over the shared
+   operations the buffers are related by Rb and the results agree, and a push or join of a non-empty
+   path after any history leaves byte-identical buffers *)
+Theorem C07_pop_keeps_R : forall tp sd : list N, Rb tp sd ->
+  Rb (fst (u_pop tp)) (fst (s_pop sd)) /\ snd (u_pop tp) = snd (s_pop sd).
+Proof. exact pop_keeps_R. Qed.
+Theorem C07_set_file_name_keeps_R : forall tp sd n : list N, Rb tp sd -> Rb (u_set_file_name tp n) (s_set_file_name sd n).
+Proof. exact sfn_keeps_R. Qed.
+Theorem C07_history_bytes : forall (ops : list hop) (tp sd : list N), forallb std_op ops = true -> Rb tp sd ->
+  Forall2 (fun u s => Rb (fst u) (fst s) /\ snd u = snd s) (hist_bufs UE tp ops) (hist_bufs SE sd ops).
+Proof. exact hist_R. Qed.
+Theorem C07_history_then_push_bytes : forall (buf : list N) (ops : list hop) (p : list N),
+  forallb std_op ops = true -> p <> [] ->
+  hist_end UE buf (ops ++ [HPush p]) = hist_end SE buf (ops ++ [HPush p]).
+Proof. exact hist_then_push_bytes. Qed.
+Print Assumptions C07_pop_keeps_R.
+Print Assumptions C07_set_file_name_keeps_R.
+Print Assumptions C07_history_bytes.
+Print Assumptions C07_history_then_push_bytes.
 
 Example C07_example :
   map fst (hist_bufs UE [47;97] [HPush [98;47;99]; HPop; HSfn [100;46;101]; HPush []; HPush [102]])
